@@ -447,4 +447,24 @@ MUTATIONS += [
     dict(id="w5-c17d", patch="seeded/C17d/patch.diff", expect={'C17': ['R4i:']}, allow_others=True),
     dict(id="w5-c18c", patch="seeded/C18c/patch.diff", expect={'C18': ['R6w:']}, allow_others=True),
     dict(id="w5-c18d", patch="seeded/C18d/patch.diff", expect={'C18': ['R6d:'], 'C10': ['R6d:']}, allow_others=True),
+    # ---- wave-5 (rest) and wave-6 seeds as kept
+    dict(id="w6-c03e", patch="seeded/C03e/patch.diff", expect={'C03': ['R3k:']}, allow_others=True),
+    dict(id="w6-c19c", patch="seeded/C19c/patch.diff", expect={'C19': ['R6q:'], 'C10': ['R6q:']}, allow_others=True),
+    dict(id="w6-c19d", patch="seeded/C19d/patch.diff", expect={'C19': ['R10']}, allow_others=True),
+    dict(id="w6-c01e", patch="seeded/C01e/patch.diff", expect={'C01': ['R12b:']}, allow_others=True),
+    dict(id="w6-c01f", patch="seeded/C01f/patch.diff", expect={'C01': ['R11i:']}, allow_others=True),
+    dict(id="w6-c02e", patch="seeded/C02e/patch.diff", expect={'C02': ['R14m:']}, allow_others=True),
+    dict(id="w6-c02f", patch="seeded/C02f/patch.diff", expect={'C02': ['R14l:']}, allow_others=True),
+    dict(id="w6-c05e", patch="seeded/C05e/patch.diff", expect={'C05': ['R7e:']}, allow_others=True),
+    dict(id="w6-c05f", patch="seeded/C05f/patch.diff", expect={'C05': ['R14i:']}, allow_others=True),
+    dict(id="w6-c10f", patch="seeded/C10f/patch.diff", expect={'C10': ['R6d:']}, allow_others=True),
+    dict(id="w6-c11e", patch="seeded/C11e/patch.diff", expect={'C11': ['R10i:']}, allow_others=True),
+    dict(id="w6-c11f", patch="seeded/C11f/patch.diff", expect={'C11': ['R4q:']}, allow_others=True),
+    dict(id="w6-c14e", patch="seeded/C14e/patch.diff", expect={'C14': ['R5f:']}, allow_others=True),
+    dict(id="w6-c14f", patch="seeded/C14f/patch.diff", expect={'C14': ['R5d:'], 'C05': ['R5d:']}, allow_others=True),
+    dict(id="w6-c16e", patch="seeded/C16e/patch.diff", expect={'C16': ['R14j:']}, allow_others=True),
+    dict(id="w6-c20e", patch="seeded/C20e/patch.diff", expect={'C20': ['R14k:']}, allow_others=True),
+    dict(id="w6-c20f", patch="seeded/C20f/patch.diff", expect={'C20': ['R13f:']}, allow_others=True),
+    dict(id="r8-smoothing-extends-any-node", file="cirkit/templates/logic/graph.py", old="                    if isinstance(input_to_d, ConjunctionNode):", new="                    if input_to_d in in_nodes:", expect={"C20": ["R8:cirkit.templates.logic.graph.LogicalCircuit.smooth:smoothing-conjoins"]}),
+    dict(id="r14g-sorted-pairs", file=FUN, old="            next_to_multiply = [(l1_inputs[i], l2_inputs[l2_matches[i]]) for i in range(len(l1_inputs))]", new="            next_to_multiply = [(l1_inputs[i], l2_inputs[j]) for i, j in zip(l1_ranks, l2_ranks)]", expect={"C04": ["R14g:"]}),
 ]
